@@ -545,7 +545,33 @@ class K:
 @lru_cache(maxsize=2)
 def load(path):
     return open(path).read()
+def build(data, start=Thing(1)):
+    start.items = data
+    return start
 '''
+
+
+def mutable_default_findings(repo, mod, rel):
+    """[(qualname, node, param, how)] : a default argument that is one object shared by all calls (a constructed object, list, dict,
+    set) and that the function modifies - state kept between calls through the default."""
+    from .effects import param_mutations
+    out = []
+    for qual, fn in mod.funcs.items():
+        args = fn.args
+        pos = args.posonlyargs + args.args
+        pairs = list(zip(pos[len(pos) - len(args.defaults):], args.defaults)) + [(a, d) for a, d in zip(args.kwonlyargs, args.kw_defaults) if d is not None]
+        shared = [(a.arg, d) for a, d in pairs if isinstance(d, (ast.Call, ast.List, ast.Dict, ast.Set, ast.ListComp, ast.DictComp))
+                  and not (isinstance(d, ast.Call) and isinstance(d.func, ast.Name) and d.func.id in ("tuple", "frozenset", "float", "int", "str", "bool"))]
+        if not shared:
+            continue
+        try:
+            muts = param_mutations(repo, mod, qual)
+        except Exception:   # noqa: BLE001
+            muts = {}
+        for name, d in shared:
+            if name in muts:
+                out.append((qual, fn, name, f"default {ast.unparse(d)[:40]} is created once and modified by the function: {muts[name][0]}"))
+    return out
 
 
 def selfcheck():
@@ -557,7 +583,8 @@ def selfcheck():
     f = _cache_findings(mod, "<selfcheck>")
     bad = {x[2] for x in f if not x[3]}
     memos = instance_memos(mod, "K")
-    return {"modcache:_C", "deco:lru_cache"} <= bad and "_m" in memos, (sorted(bad), sorted(memos))
+    md = mutable_default_findings(None, mod, "<selfcheck>")
+    return {"modcache:_C", "deco:lru_cache"} <= bad and "_m" in memos and [x[2] for x in md] == ["start"], (sorted(bad), sorted(memos), [x[2] for x in md])
 
 
 def cache_scope(chk, rid, modules=(), classes=(), what="the property's code path"):
@@ -572,6 +599,10 @@ def cache_scope(chk, rid, modules=(), classes=(), what="the property's code path
         for qual, node, fp, good, exp, found in f:
             chk.ob(rid, rel, qual, "a cache shared between calls/instances is keyed by everything its value depends on", good, node=node,
                    fingerprint=fp, expected=exp, found=found)
+        for qual, node, pname, how in mutable_default_findings(chk.repo, mod, rel):
+            chk.ob(rid, rel, qual, "no state is kept between calls through a default argument (a default object is created once; modifying it "
+                   "changes what every later call - and every object built from it - sees)", False, node=node, fingerprint=f"mutable-default:{pname}",
+                   expected="None as default and a fresh object per call", found=how)
         chk.ob(rid, rel, "<module>", f"inventory: {len(f)} module-level / decorator caches on {what}", True, fingerprint="inventory",
                nontrivial=False)
         chk.saw(rel, "<module caches>")
